@@ -22,6 +22,11 @@ Level: exploration with spec-manufactured oracles (DESIGN.md section 5, C15).
  3. helper functions (_derivative_transformation_matrix, _transform_ode_from_derivs,
     _rearrange_to_explicit_ode) on the rational cases emitted by TLC.
 
+Tiers: quick = 300 seeded solves (240 BVP/DOP853, 45 RK45, 15 Radau) + all helper cases; thorough =
+every BVP and DOP853 solve the specification assigns (15 984) and a seeded third / tenth of the RK45 /
+Radau ones (~2 400).  Each solve runs under a CPU-time guard (90 s; sound solves need < 14 s) so that a
+defect that makes a solver diverge is reported as a violation, not as a hang.
+
 Acceptance (per derivative order k, relative to max|y^(k)| over the sample points):
   direct solves 1e-6, solves through a transformation 1e-4.
 
@@ -325,7 +330,7 @@ def run(tier: str, _select=None) -> int:
         jobs = fast[:240] + rk[:45] + radau[:15]
     else:
         # RK45 / Radau at 1e-10 are slow (0.3 / 2 s per solve): thorough runs every DOP853 and BVP
-        # solve and a seeded quarter / twelfth of the RK45 / Radau ones (the calibration covered all)
+        # solve and a seeded third / tenth of the RK45 / Radau ones (the calibration covered all)
         keep = []
         for j in jobs:
             frac = 1.0 if j["type"] == "bvp" or j["method"] == "DOP853" else THOROUGH_FRACTION[j["method"]]
@@ -383,7 +388,7 @@ def run(tier: str, _select=None) -> int:
     return rep.finish()
 
 
-THOROUGH_FRACTION = {"RK45": 0.25, "Radau": 0.08}
+THOROUGH_FRACTION = {"RK45": 0.35, "Radau": 0.1}
 
 
 def selftest(tier: str = "quick") -> int:
@@ -415,3 +420,36 @@ def selftest(tier: str = "quick") -> int:
                                                   "    derivs_at_pt = np.array([np.ravel(np.asarray(dev(np.array([point], dtype=float)), dtype=float))[0] for dev in deriv_func_list], dtype=float)\n    deriv_transf")),
     ]
     return run_mutants(PROP, run, tier, mutants, expect={"REPAIRED-scalar-point-derivatives": 0})
+
+
+def replay(path: str) -> int:
+    """Re-execute the solve recorded in a replay file (the problem is re-emitted by TLC)."""
+    with open(path) as f:
+        v = json.load(f)
+    c = v.get("case") or {}
+    if "problem" not in c:
+        return run(v.get("tier", "quick"))
+    pid, solve, tname = c["problem"]["id"], c["solve"], c["transform"]
+
+    def pick(jobs):
+        _, _, _, catalogue, _ = _REPLAY["spec"]
+        out = []
+        for j in jobs:
+            if j["key"][0] != pid or j["key"][1] != solve:
+                continue
+            tfe = None if j["tf"] is None else catalogue[j["prob"]["dom"]][j["tf"] - 1]
+            if ("direct" if tfe is None else tf_name(tfe)) == tname:
+                out.append(j)
+        return out
+    wd = tlc.scratch(f"{PROP}-replay")
+    _REPLAY["spec"] = spec_run(wd)
+    from .. import evidence
+    old = evidence.EVID
+    evidence.EVID = wd / "evidence"     # a replay must not overwrite the evidence of the tiers
+    try:
+        return run("thorough", _select=pick)
+    finally:
+        evidence.EVID = old
+
+
+_REPLAY = {}
